@@ -123,7 +123,8 @@ struct Exec {
         violation("oracle:" + oracle, "rank " + std::to_string(r) + " op#" + std::to_string(opi) + " " + (opi >= 0 ? op_to_string(c.p->ops[opi], r) : std::string()) + ": " + detail);
     }
     void rc_check(Op &op, int opi, int rc, int exp, bool any) {
-        c.res->rcs[r][opi].rc = rc; c.res->rcs[r][opi].executed = true;
+        if (!(c.res->rcs[r][opi].executed && c.res->rcs[r][opi].rc != NC_NOERR)) c.res->rcs[r][opi].rc = rc;   // keep the first error of compound ops
+        c.res->rcs[r][opi].executed = true;
         if (!c.o.check_rc || any) return;
         if (rc != exp) fail("rc", opi, std::string("returned ") + ncmpi_strerrno(rc) + " expected " + ncmpi_strerrno(exp));
     }
@@ -537,7 +538,10 @@ RunResult run_program(Program &p, const RunOpts &o) {
     res.rcs.assign(n, std::vector<OpResult>(p.ops.size()));
     sim::run(s, [&](int rank) {
         Exec e(c, rank);
-        for (size_t i = 0; i < p.ops.size(); i++) e.run_op((int)i);
+        for (size_t i = 0; i < p.ops.size(); i++) {
+            e.run_op((int)i);
+            if (o.stop_after_op >= 0 && (int)i == o.stop_after_op) { c.bar_arrived[i]++; Ctx *cp = &c; int n2 = n; size_t ii = i; sim::set_rank_desc("finished op#" + std::to_string(i) + ", waiting for the other ranks to return from it"); sim::block_until("harness-stop", [cp, ii, n2]() { return cp->bar_arrived[ii] >= n2; }); return; }
+        }
         // epilogue: close whatever the program left open (same set on every rank)
         sim::set_cur_op((int)p.ops.size());
         for (int f = 0; f < nslots; f++) if (e.me.ncid[f] >= 0) { sim::set_in_lib(true); ncmpi_close(e.me.ncid[f]); sim::set_in_lib(false); e.me.ncid[f] = -1; e.drop_reqs(f); }
